@@ -703,3 +703,7 @@ def run(ctx):
     # a thread that could not be attached is omitted *and reported*: the failing-attach branch pushes that error
     from rules import c11
     c11.rule_soft_sites(ctx, R="C04/omitted-thread-reported", only=("suspend_thread",), floor=1)
+    # the stream is attempted in every dump: its writer is on every success path of generate_dump (same rule instance as C01/every-stream-attempted)
+    from rules import c01 as _c01
+    _c01.rule_stream_attempted(ctx, R="C04/stream-attempted", only=("thread_list_stream::write",))
+
